@@ -16,6 +16,12 @@ the checker reacts is runtime behaviour, exercised by the `settle` mode of the s
 theorem facts_checker_started :
     Facts.healthCheckOnCreate = true ∧ Facts.healthCheckLoopUnconditional = true := by decide
 
+/-- Obligation on the extracted facts (main.go): the status callback that the health checker calls between the
+check of one server and the next does nothing synchronously but logging — the alarm (an HTTP POST without a
+time-out) is handed to a goroutine.  A callback that blocks would freeze the health vector `next` reads. -/
+theorem facts_status_callback_does_not_block :
+    Facts.statusCallbackSyncCalls = [] ∧ Facts.statusCallbackGoCalls = ["doAlarm"] := by decide
+
 theorem mem_candidates {ss : List Server} {i : Nat} (h : i ∈ candidates ss) :
     ∃ s, ss[i]? = some s ∧ s.healthy = true
       ∧ (s.backup = true → ∀ (j : Nat) (s' : Server), ss[j]? = some s' → s'.healthy = true → s'.backup = true) := by
